@@ -972,13 +972,14 @@ package libinjection
 //@ spec foldWin(s *sqliState, pos int, lc *sqliToken) bool = winSigma(s, pos) && (lc.category == 0 || lc.category == sqliTokenTypeComment) &&
 //@      0 <= s.statsFolds && s.statsFolds + pos + (lc.category == sqliTokenTypeComment ? 1 : 0) <= s.statsTokens &&
 //@      (s.statsFolds == 0 ==> winBefore(s, pos, s.pos) && (lc.category == sqliTokenTypeComment ==> lc.pos + lc.len <= s.pos && winBefore(s, pos, lc.pos)))
+//@ spec clsAt(s *sqliState, n int, i int) bool = i < n ==> inSigma(catAt(s, i)) && (catAt(s, i) == sqliTokenTypeComment ==> i == n - 1)
 //@ spec foldM1(s *sqliState, more bool) int = s.length - s.pos + (more ? 1 : 0)
 //@ func (*sqliState).fold
 //@   requires wfS(s) && statsOK(s) && 0 <= s.statsFolds && s.statsFolds <= s.statsTokens
 //@   modifies s.pos, s.current, s.statsTokens, s.statsFolds, s.statsCommentDDX, s.statsCommentHash, s.tokenVec[*].*
 //@   ensures  wfS(s) && statsOK(s) && aliases(s.input, old(s.input)) && s.length == old(s.length) && s.flags == old(s.flags)
 //@   ensures  [C01 C08] @count 0 <= result && result <= 6 && (result == 6 ==> s.tokenVec[5].category == sqliTokenTypeEvil)
-//@   ensures  [C01 C08] @classes forall i in [0, result): inSigma(catAt(s, i)) && (catAt(s, i) == sqliTokenTypeComment ==> i == result - 1)
+//@   ensures  [C01 C08] @classes clsAt(s, result, 0) && clsAt(s, result, 1) && clsAt(s, result, 2) && clsAt(s, result, 3) && clsAt(s, result, 4) && clsAt(s, result, 5)
 //@   ensures  [C01] @stats 0 <= s.statsFolds && s.statsFolds + result <= s.statsTokens
 //@   ensures  [C01] @order s.statsFolds == 0 && result >= 2 && catAt(s, result - 1) == sqliTokenTypeComment ==>
 //@                 tokEnd(s, 0) <= s.tokenVec[result - 1].pos && tokEnd(s, result - 1) <= s.length
@@ -1018,7 +1019,8 @@ package libinjection
 //@   modifies s.*, s.tokenVec[*].*
 //@   ensures  wfS0(s) && statsOK(s) && aliases(s.input, old(s.input)) && s.length == len(s.input) && s.flags == (flags == 0 ? 9 : flags)
 //@   ensures  [C01 C08 C06] @length len(s.fingerprint) <= 5 && aliases(result, s.fingerprint)
-//@   ensures  [C01 C08 C06] @fp evilFP(s) || fpOK(s)
+//@   ensures  [C01 C08 C06] @fp (evilFP(s) || len(s.fingerprint) <= 5) && (evilFP(s) || fpAt(s, 0)) && (evilFP(s) || fpAt(s, 1)) && (evilFP(s) || fpAt(s, 2)) &&
+//@                 (evilFP(s) || fpAt(s, 3)) && (evilFP(s) || fpAt(s, 4))
 //@   justify  afterReset
 //@   defines  [C08 C12] @pass stateOf(s) == ST(old(s.input), flags == 0 ? 9 : flags) && aliases(s.fingerprint, FP(old(s.input), flags == 0 ? 9 : flags)) &&
 //@                 s.statsCommentDDX == DDX(old(s.input), flags == 0 ? 9 : flags) && s.statsCommentHash == HASH(old(s.input), flags == 0 ? 9 : flags)
